@@ -33,6 +33,12 @@ class RunRepo:
         if kind == "exec": os.symlink(vlib.BIN_VHELPER, p)
         elif kind == "noexec":
             open(p, "w").write("#!/bin/sh\nexit 0\n"); os.chmod(p, 0o644)
+        elif kind == "noexec_format":
+            # execute bits set, but nothing the kernel can start: a text file without a #! line
+            open(p, "w").write("echo this file has no interpreter line\n"); os.chmod(p, 0o755)
+        elif kind == "noexec_interp":
+            # execute bits set, #! names an interpreter that does not exist
+            open(p, "w").write("#!/nonexistent/interpreter\nexit 0\n"); os.chmod(p, 0o755)
         elif kind == "noexec_link":
             # a symbolic link (whose own mode is always rwxrwxrwx) to a file without the x bit
             shared = os.path.join(self.repo, "shared"); os.makedirs(shared, exist_ok=True)
